@@ -7,5 +7,6 @@ for p in $(python3 -c "import json;print(' '.join(c['property_id'] for c in json
   out=$(./check $p $tier 2>&1); rc=$?
   e=$(( $(date +%s) - s ))
   echo "$p rc=$rc ${e}s $(echo "$out" | grep VERIF-SUMMARY | sed 's/VERIF-SUMMARY property=[A-Z0-9]* tier=[a-z]* //') known_lines=$(echo "$out" | grep -c KNOWN-FINDING) viol_lines=$(echo "$out" | grep -c '^VIOLATION')"
-  [ $rc -ne 0 ] && echo "$out" | grep -v "^QSCHED" | tail -5
+  if [ $rc -ne 0 ]; then echo "$out" | grep -v "^QSCHED" | tail -5; bad=1; fi
 done
+exit ${bad:-0}
